@@ -42,6 +42,9 @@ type c20Case struct {
 	// ReRegister: the request is executed once, then every registration is made
 	// again with the opposite verdict and a new callback; the latest wins
 	ReRegister bool `json:"reRegister,omitempty"`
+	// Poison: the registered updaters produce an item the table must refuse (index key of
+	// the wrong type): the call fails and nothing changes
+	Poison bool `json:"poison,omitempty"`
 }
 
 var c20Texts = map[string][]string{
@@ -70,7 +73,10 @@ func c20ValuesFor(texts ...string) map[string]model.AV {
 	return out
 }
 
-type c20Log struct{ fired []int }
+type c20Log struct {
+	fired  []int
+	poison bool // updaters also give the index key attribute g a number: the update must be refused
+}
 
 func (l *c20Log) matcher(id int, verdict bool) interpreter.MatcherFunc {
 	return func(item map[string]*mtypes.Item, attrs map[string]*mtypes.Item) bool {
@@ -84,7 +90,13 @@ func (l *c20Log) updater(id int) interpreter.UpdaterFunc {
 		l.fired = append(l.fired, id)
 		s := fmt.Sprintf("updater-%d", id)
 		item["marker"] = &mtypes.Item{S: &s}
-		delete(item, "a") // the Go form of a REMOVE clause
+		yes := true
+		item["nul"] = &mtypes.Item{NULL: &yes} // a NULL-typed value is a value
+		delete(item, "a")                      // the Go form of a REMOVE clause
+		if l.poison {
+			seven := "7"
+			item["g"] = &mtypes.Item{N: &seven}
+		}
 	}
 }
 
@@ -131,7 +143,8 @@ func lookupReg(regs []c20Reg, table, kind, text string) (reg *c20Reg, close bool
 }
 
 func c20Schema(name string) *model.Schema {
-	return &model.Schema{Table: name, Hash: "pk", Range: "sk", Attrs: map[string]string{"pk": "S", "sk": "S"}, Billing: "PAY_PER_REQUEST"}
+	return &model.Schema{Table: name, Hash: "pk", Range: "sk", Attrs: map[string]string{"pk": "S", "sk": "S", "g": "S"}, Billing: "PAY_PER_REQUEST",
+		Indexes: []model.IndexSchema{{Name: "gidx", Hash: "g", Global: true, NoThroughput: true}}}
 }
 
 type c20Info struct {
@@ -147,7 +160,7 @@ func runC20(c c20Case, info *c20Info) (fl *failure) {
 		}
 	}()
 	for _, which := range []string{"v1", "v2"} {
-		l := &c20Log{}
+		l := &c20Log{poison: c.Poison}
 		var d drv.Real
 		var native *interpreter.Native
 		var setInterp func(*interpreter.Native)
@@ -356,6 +369,14 @@ func runC20(c c20Case, info *c20Info) (fl *failure) {
 			}
 			if op.Kind == "Update" {
 				switch {
+				case uReg != nil && c.Poison:
+					mark(uReg)
+					if got.Err == "" {
+						return fail("native update that yields a wrongly typed index key was accepted", "item after the update: %s", model.CanonItem(got.Item))
+					}
+					if d.Snapshot() != before {
+						return fail("refused write changed state", "native update refused with %s %s", got.Err, got.ErrText)
+					}
 				case uReg != nil:
 					mark(uReg)
 					if got.Err != "" {
@@ -370,6 +391,16 @@ func runC20(c c20Case, info *c20Info) (fl *failure) {
 					if g := d.Apply(model.Op{Kind: "Get", Table: op.Table, Key: op.Key}); g.Err == "" {
 						if _, ok := g.Item["a"]; ok || g.Item["marker"].S != fmt.Sprintf("updater-%d", uReg.ID) {
 							return fail("native dispatch: the updater's mutation is not the outcome", "stored item after the update: %s", model.CanonItem(g.Item))
+						}
+						// ... and nothing but it: every other attribute, of whatever type, is as it was
+						exp := model.CloneItem(orEmpty(target))
+						for k, v := range op.Key {
+							exp[k] = v
+						}
+						delete(exp, "a")
+						exp["marker"], exp["nul"] = model.Str(fmt.Sprintf("updater-%d", uReg.ID)), model.Null()
+						if !model.ItemEqual(exp, g.Item) {
+							return fail("native dispatch: the updater's mutation is not the outcome", "stored item after the update: %s, expected %s", model.CanonItem(g.Item), model.CanonItem(exp))
 						}
 					}
 				case c.NativeOn:
@@ -420,7 +451,7 @@ func init() {
 	}
 }
 
-const ruleC20 = "rapid: a set of registrations - subset of {tblA, tblB} x {key, filter, conditional, update} x texts from pools built to collide under character sorting (anagram pairs such as 'a = :v' / ':v = a' / 'v = :a', 'SET a = :v, b = :w' / 'SET a = :w, b = :v', whitespace variants, letter-case variants 'a' / 'A', non-ASCII names whose UTF-8 bytes look like white space to byte-wise code, prefixes), each with an instrumented callback that records its id and returns a generated verdict (matchers) or writes a marker attribute and deletes another (updaters); the native interpreter on or off, activated before or after table creation, registrations made on the client's own interpreter or installed with SetInterpreter before or after table creation, before or after the tables exist, optionally after the same request has already been executed once unregistered, or executed once and every registration then made again with the opposite verdict and a new callback; then one request (Scan with filter, Query with key condition and optional filter, Put / Delete / Update with condition, Update with update text) on either table, on both SDK clients. Oracle: for each expression the request evaluates, a registration for exactly (table, kind, trimmed text) -> that callback and only it fires and its verdict / mutation decides the outcome (texts equal after collapsing surrounding and repeated whitespace are one registration, the latest wins); no such registration -> no callback fires, matches fall back to the built-in interpreter (reference model), updates fail as unsupported and change nothing. Non-trivial = request whose text is an anagram (not whitespace-equal) of a registered text of the same slot, or equal to a text registered for another table or kind; distinct = hash of the case."
+const ruleC20 = "rapid: a set of registrations - subset of {tblA, tblB} x {key, filter, conditional, update} x texts from pools built to collide under character sorting (anagram pairs such as 'a = :v' / ':v = a' / 'v = :a', 'SET a = :v, b = :w' / 'SET a = :w, b = :v', whitespace variants, letter-case variants 'a' / 'A', non-ASCII names whose UTF-8 bytes look like white space to byte-wise code, prefixes), each with an instrumented callback that records its id and returns a generated verdict (matchers) or writes a marker attribute and a NULL-typed one and deletes another (updaters; the stored items also hold NULL, BOOL, empty-string, binary-set and number-set values, at top level and nested, and the stored item after the update must equal the item before it with exactly that mutation; in a sixth of the cases the updaters also give the key attribute of the tables' global index a number, and the update must be refused without a trace); the native interpreter on or off, activated before or after table creation, registrations made on the client's own interpreter or installed with SetInterpreter before or after table creation, before or after the tables exist, optionally after the same request has already been executed once unregistered, or executed once and every registration then made again with the opposite verdict and a new callback; then one request (Scan with filter, Query with key condition and optional filter, Put / Delete / Update with condition, Update with update text) on either table, on both SDK clients. Oracle: for each expression the request evaluates, a registration for exactly (table, kind, trimmed text) -> that callback and only it fires and its verdict / mutation decides the outcome (texts equal after collapsing surrounding and repeated whitespace are one registration, the latest wins); no such registration -> no callback fires, matches fall back to the built-in interpreter (reference model), updates fail as unsupported and change nothing. Non-trivial = request whose text is an anagram (not whitespace-equal) of a registered text of the same slot, or equal to a text registered for another table or kind; distinct = hash of the case."
 
 // TestC20 decides property C20.
 func TestC20(t *testing.T) {
@@ -434,10 +465,14 @@ func TestC20(t *testing.T) {
 			SetBeforeCreate:      rapid.Bool().Draw(rt, "setBeforeCreate"),
 			RegisterLate:         rapid.Bool().Draw(rt, "registerLate"),
 			ReRegister:           rapid.IntRange(0, 3).Draw(rt, "reRegister") == 2,
+			Poison:               rapid.IntRange(0, 5).Draw(rt, "poison") == 3,
 		}
 		c.Items = []model.Item{
-			{"pk": model.Str("p1"), "sk": model.Str("a"), "a": model.Str("x"), "b": model.Str("y"), "n": model.Num("1")},
-			{"pk": model.Str("p1"), "sk": model.Str("b"), "a": model.Str("z"), "v": model.Str("x")},
+			{"pk": model.Str("p1"), "sk": model.Str("a"), "a": model.Str("x"), "b": model.Str("y"), "n": model.Num("1"), "g": model.Str("g1"),
+				// values of the rarer types: an update must hand them through untouched
+				"z": model.Null(), "t": model.Bool(false), "e": model.Str(""), "bs": model.BinSet([]byte{1}, []byte{2, 3}), "ns": model.NumSet("1", "2.50"),
+				"l": model.List(model.Null(), model.Map(map[string]model.AV{"k": model.BinSet([]byte{9}), "z": model.Null()}), model.NumSet("7"), model.Bin([]byte{0}))},
+			{"pk": model.Str("p1"), "sk": model.Str("b"), "a": model.Str("z"), "v": model.Str("x"), "z": model.Null(), "bs": model.BinSet([]byte{4}, []byte{5})},
 			{"pk": model.Str("p2"), "sk": model.Str("c"), "b": model.Str("y")},
 		}
 		n := rapid.IntRange(0, 5).Draw(rt, "nRegs")
